@@ -13,13 +13,14 @@ open OH.Spec.Sent (Num Small DayOff SDate SOffset commaList yearPrefix optOff sp
 
 /-! ### names -/
 
-theorem monthName_eq (m : Nat) : monthName m = Print.monthStr m := by
-  unfold monthName Print.monthStr OH.Spec.Sent.t Print.str
-  split <;> rfl
+theorem monthName_eq (m : Nat) : monthName m = Print.monthStr m :=
+  match m with
+  | 0 => rfl | 1 => rfl | 2 => rfl | 3 => rfl | 4 => rfl | 5 => rfl | 6 => rfl | 7 => rfl | 8 => rfl
+  | 9 => rfl | 10 => rfl | 11 => rfl | _ + 12 => rfl
 
-theorem wdayName_eq (w : Nat) : wdayName w = Print.wdayStr w := by
-  unfold wdayName Print.wdayStr OH.Spec.Sent.t Print.str
-  split <;> rfl
+theorem wdayName_eq (w : Nat) : wdayName w = Print.wdayStr w :=
+  match w with
+  | 0 => rfl | 1 => rfl | 2 => rfl | 3 => rfl | 4 => rfl | 5 => rfl | _ + 6 => rfl
 
 theorem monthWf_iff (m : Nat) : OH.Spec.Sent.monthWf m = true ↔ 1 ≤ m ∧ m ≤ 12 := by
   simp [OH.Spec.Sent.monthWf]
@@ -124,20 +125,35 @@ theorem build_dn (d : Small) (hd : 1 ≤ d.val ∧ d.val ≤ 31) : buildDaynum (
     Except.bind]
 
 /-- one or two digits followed by something that is not a digit are not a year -/
+theorem run_year_none_one (q : Bool) (a : Char) (X : List Char) (hX : NoDigit X) :
+    run g_year q (a :: X) = none := by
+  cases X with
+  | nil => by_cases h29 : '2' ≤ a ∧ a ≤ '9' <;> simp [g_year, PExpr.rep, peg, h29]
+  | cons c r =>
+    have hc := hX c r rfl
+    have n9 : '9' ≠ c := by intro h; subst h; exact hc (by decide)
+    by_cases h29 : '2' ≤ a ∧ a ≤ '9' <;> simp [g_year, PExpr.rep, peg, n9, hc, h29]
+
+theorem run_year_none_two (q : Bool) (a b : Char) (X : List Char) (hX : NoDigit X) :
+    run g_year q (a :: b :: X) = none := by
+  have h09 : run (.range '0' '9' : G) true X = none :=
+    range_none_of_NoDigit true X hX '0' '9' (by decide) (by decide)
+  by_cases h1 : a = '1'
+  · subst h1
+    by_cases h9 : b = '9'
+    · subst h9
+      simp [g_year, PExpr.rep, peg, h09]
+    · have h9' : '9' ≠ b := Ne.symm h9
+      simp [g_year, PExpr.rep, peg, h9']
+  · have h1' : '1' ≠ a := Ne.symm h1
+    by_cases h29 : '2' ≤ a ∧ a ≤ '9' <;> by_cases hb : '0' ≤ b ∧ b ≤ '9' <;>
+      simp [g_year, PExpr.rep, peg, h09, h29, hb, h1']
+
 theorem run_year_none_small (q : Bool) (d : Small) (hd : d.val < 100) (X : List Char) (hX : NoDigit X) :
     run g_year q (d.render ++ X) = none := by
-  have h09 : ∀ q', run (.range '0' '9' : G) q' X = none := fun q' =>
-    range_none_of_NoDigit q' X hX '0' '9' (by decide) (by decide)
   rcases small_render_cases d hd with ⟨h10, e⟩ | e
-  · rw [e]
-    cases X with
-    | nil => simp [g_year, PExpr.rep, peg]
-    | cons c r =>
-      have hc := hX c r rfl
-      have n9 : '9' ≠ c := by intro h; subst h; exact hc (by decide)
-      simp [g_year, PExpr.rep, peg, n9, hc]
-  · rw [e, pad2_lt100 d.val hd]
-    simp [g_year, PExpr.rep, peg, h09]
+  · rw [e]; exact run_year_none_one q _ X hX
+  · rw [e, pad2_lt100 d.val hd]; exact run_year_none_two q _ _ X hX
 
 /-! ### `date_from = { (year ~ " "?)? ~ month ~ " "? ~ daynum | (year ~ " "?)? ~ variable_date }` -/
 
@@ -232,37 +248,33 @@ theorem run_sdate (d : SDate) (hd : d.wf = true) (X : List Char) (hf : DayFollow
     exact run_sdate_fixed y m s d hd.1.1 hd.1.2 (smallWf31 hd.2) X hf
   | easter y => exact run_sdate_easter y hd X
 
-theorem build_year_kids (y : Option Nat) (hy : okYearOpt y = true) (text : List Char) (tail : List T)
-    (ht : ∀ t ∈ tail.head?, t.rule ≠ .year) :
-    (match yearKids y ++ tail with
-      | y :: rest =>
-        if y.rule = .year then do let v ← buildYear y; (.ok (some v, rest) : PM (Option Nat × List T))
-        else .ok (none, y :: rest)
-      | [] => .ok (none, [])) = .ok (y, tail) := by
-  cases y with
-  | none =>
-    cases tail with
-    | nil => rfl
-    | cons t l =>
-      have := ht t (by simp)
-      simp [yearKids, this]
-  | some y =>
-    simp only [okYearOpt, decide_eq_true_eq] at hy
-    simp [yearKids, build_year y hy.2, bind, Except.bind]
-
 theorem build_sdate (d : SDate) (hd : d.wf = true) : buildDateFrom (sdTree d) = .ok d.denote := by
   cases d with
   | fixed y m s d =>
     simp only [OH.Spec.Sent.SDate.wf, Bool.and_eq_true, monthWf_iff] at hd
-    have hy := (yearPrefixWf_iff y).mp hd.1.1
-    have hk := build_year_kids (yearPrefix y).2 hy [] [monthTree m, dnTree d] (by simp)
-    simp only [buildDateFrom, sdTree, tr_kids, tr_rule, assertRule, if_true, hk, bind, Except.bind]
-    simp [build_month m hd.1.2, build_dn d (smallWf31 hd.2), SDate.denote, bind, Except.bind]
+    have hbm := build_month m hd.1.2
+    have hbd := build_dn d (smallWf31 hd.2)
+    cases y with
+    | none =>
+      simp [buildDateFrom, sdTree, yearPrefix, yearKids, assertRule, hbm, hbd, SDate.denote, bind,
+        Except.bind]
+    | some p =>
+      obtain ⟨y, s0⟩ := p
+      have hy' : 1900 ≤ y ∧ y ≤ 9999 := by
+        simpa [OH.Spec.Sent.yearPrefixWf, yearWf_iff] using hd.1.1
+      simp [buildDateFrom, sdTree, yearPrefix, yearKids, assertRule, build_year y hy'.2, hbm, hbd,
+        SDate.denote, bind, Except.bind]
   | easter y =>
-    have hy := (yearPrefixWf_iff y).mp hd
-    have hk := build_year_kids (yearPrefix y).2 hy [] [easterTree] (by simp [easterTree])
-    simp only [buildDateFrom, sdTree, tr_kids, tr_rule, assertRule, if_true, hk, bind, Except.bind]
-    simp [easterTree, SDate.denote]
+    cases y with
+    | none =>
+      simp [buildDateFrom, sdTree, yearPrefix, yearKids, easterTree, assertRule, SDate.denote, bind,
+        Except.bind]
+    | some p =>
+      obtain ⟨y, s0⟩ := p
+      have hy' : 1900 ≤ y ∧ y ≤ 9999 := by
+        simpa [OH.Spec.Sent.SDate.wf, OH.Spec.Sent.yearPrefixWf, yearWf_iff] using hd
+      simp [buildDateFrom, sdTree, yearPrefix, yearKids, easterTree, assertRule, build_year y hy'.2,
+        SDate.denote, bind, Except.bind]
 
 theorem parses_sdate (d : SDate) (hd : d.wf = true) (X : List Char) (hf : DayFollowS X) :
     ParsesTo g_date_from buildDateFrom d.render X d.denote :=
@@ -362,5 +374,312 @@ theorem run_wd_none_sdate (d : SDate) (hd : d.wf = true) (X : List Char) :
       cases y with
       | none => exact run_wd_none_head false 'e' _ (by decide)
       | some p => simp [SDate.hasYear] at hy
+
+/-! ### `date_offset = { plus_or_minus ~ wday ~ day_offset | plus_or_minus ~ wday | day_offset }` -/
+
+/-- the pairs `buildMonthdayRange` finds for an optional date offset `d`: none (the neutral offset),
+or one `date_offset` pair that builds to `d` -/
+def OffK (k : List T) (d : DateOffset) : Prop :=
+  (k = [] ∧ d = noOffset) ∨ ∃ t, k = [t] ∧ t.rule = .date_offset ∧ buildDateOffset t = .ok d
+
+theorem optOffWf_some {o : DayOff} (h : OH.Spec.Sent.optOffWf (some o) = true) : o.wf = true := h
+
+/-- a written date offset that is present: one `date_offset` pair -/
+theorem run_soffset_some (o : SOffset) (ho : o.wf = true) (hne : o ≠ .none) (inp : List Char)
+    (H1 : run g_day_offset false inp = none) (H2 : ∀ r, inp ≠ 's' :: r) :
+    ∃ t, run g_date_offset false (o.render ++ inp) = some ⟨[t], o.render, inp⟩ ∧
+      t.rule = .date_offset ∧ buildDateOffset t = .ok o.denote := by
+  cases o with
+  | none => exact absurd rfl hne
+  | days off =>
+    obtain ⟨t, hrun, hb⟩ := parses_dayoff off ho inp H2
+    have hr := parses_dayoff_rule hb
+    obtain ⟨c, r, e, _⟩ := dayoff_head off
+    have hpm : run g_plus_or_minus false (off.render ++ inp) = none := by
+      rw [e]
+      exact run_pm_none false _ (fun _ h => by cases h) (fun _ h => by cases h)
+    refine ⟨.node .date_offset off.render [t], ?_, rfl, ?_⟩
+    · simp only [SOffset.render]
+      simp only [g_date_offset, run_rule, run_alt, run_seq, Bool.or_self, hpm, hrun]
+      simp
+    · simp [buildDateOffset, assertRule, hr, hb, SOffset.denote, bind, Except.bind]
+  | wday neg w off =>
+    simp only [OH.Spec.Sent.SOffset.wf, Bool.and_eq_true, decide_eq_true_eq] at ho
+    have hwd := run_wd w ho.1
+    have hbw := build_wd w ho.1
+    have hpm : ∀ X, run g_plus_or_minus false ((if neg then '-' else '+') :: X)
+        = some ⟨[pmTree (!neg)], [if neg then '-' else '+'], X⟩ := by
+      intro X
+      cases neg with
+      | true => exact run_pm_minus X
+      | false => exact run_pm_plus X
+    cases off with
+    | none =>
+      refine ⟨.node .date_offset (SOffset.render (.wday neg w none)) [pmTree (!neg), wdTree w], ?_, rfl, ?_⟩
+      · simp only [SOffset.render, optOff, wdayName_eq, List.append_nil, List.cons_append,
+          List.nil_append]
+        simp only [g_date_offset, run_rule, run_alt, run_seq, R.append, Bool.or_self, hpm, hwd, H1]
+        simp
+      · cases neg <;>
+          simp [buildDateOffset, assertRule, build_pm_plus, build_pm_minus, hbw, SOffset.denote, optOff,
+            bind, Except.bind]
+    | some off =>
+      obtain ⟨t, hrun, hb⟩ := parses_dayoff off (optOffWf_some ho.2) inp H2
+      have hr := parses_dayoff_rule hb
+      refine ⟨.node .date_offset (SOffset.render (.wday neg w (some off))) [pmTree (!neg), wdTree w, t],
+        ?_, rfl, ?_⟩
+      · simp only [SOffset.render, optOff, wdayName_eq, List.cons_append, List.nil_append,
+          List.append_assoc]
+        simp only [g_date_offset, run_rule, run_alt, run_seq, R.append, Bool.or_self, hpm, hwd, hrun]
+        simp
+      · cases neg <;>
+          simp [buildDateOffset, assertRule, build_pm_plus, build_pm_minus, hbw, hb, SOffset.denote, optOff,
+            bind, Except.bind]
+
+/-- `date_offset` fails: no sign-and-weekday, no day offset -/
+theorem run_date_offset_none' (inp : List Char) (H1 : run g_day_offset false inp = none)
+    (H3 : run (.seq g_plus_or_minus g_wday) false inp = none) : run g_date_offset false inp = none := by
+  have ha1 : run (.seq (.seq g_plus_or_minus g_wday) g_day_offset) false inp = none := seq_none_left H3
+  simp only [g_date_offset, run_rule, run_alt, Bool.or_self, ha1, H3, H1]
+
+/-- the optional date offset, present or not -/
+theorem run_soffset (o : SOffset) (ho : o.wf = true) (inp : List Char)
+    (H1 : run g_day_offset false inp = none) (H2 : ∀ r, inp ≠ 's' :: r)
+    (H3 : run (.seq g_plus_or_minus g_wday) false inp = none) :
+    ∃ k, run (.opt g_date_offset) false (o.render ++ inp) = some ⟨k, o.render, inp⟩ ∧
+      OffK k o.denote := by
+  by_cases hne : o = .none
+  · subst hne
+    refine ⟨[], ?_, Or.inl ⟨rfl, rfl⟩⟩
+    simp only [SOffset.render, List.nil_append]
+    exact opt_none (run_date_offset_none' inp H1 H3)
+  · obtain ⟨t, hrun, hr, hb⟩ := run_soffset_some o ho hne inp H1 H2
+    exact ⟨[t], opt_some hrun, Or.inr ⟨t, rfl, hr, hb⟩⟩
+
+/-- a written date offset is empty or starts with `+`, `-` or a space -/
+theorem soffset_head (o : SOffset) :
+    o.render = [] ∧ o = .none ∨ ∃ c r, o.render = c :: r ∧ (c = ' ' ∨ c = '+' ∨ c = '-') := by
+  cases o with
+  | none => exact Or.inl ⟨rfl, rfl⟩
+  | days off =>
+    obtain ⟨c, r, e, _⟩ := dayoff_head off
+    exact Or.inr ⟨' ', _, e, Or.inl rfl⟩
+  | wday neg w off =>
+    refine Or.inr ⟨if neg then '-' else '+', _, rfl, ?_⟩
+    cases neg <;> simp
+
+/-- … so that a day number may precede it -/
+theorem soffset_dayFollow (o : SOffset) (X : List Char) (hX : DayFollowS X) :
+    DayFollowS (o.render ++ X) := by
+  rcases soffset_head o with ⟨e, _⟩ | ⟨c, r, e, hc⟩
+  · rw [e]; exact hX
+  · rw [e]
+    apply DayFollowS_cons
+    · rcases hc with h | h | h <;> subst h <;> decide
+    · rcases hc with h | h | h <;> subst h <;> decide
+
+/-- … and that the `" day"` test of `NoDayWord` passes on it -/
+def NoDayWord (Z : List Char) : Prop := ∀ r, Z ≠ ' ' :: 'd' :: 'a' :: 'y' :: r
+
+theorem soffset_noDayWord (o : SOffset) (X : List Char) (hX : NoDayWord X) :
+    NoDayWord (o.render ++ X) := by
+  cases o with
+  | none => exact hX
+  | days off =>
+    obtain ⟨c, r, e, hc⟩ := dayoff_head off
+    intro r' h
+    simp only [SOffset.render] at h
+    rw [e] at h
+    simp only [List.cons_append, List.cons.injEq] at h
+    have h1 := h.2.1
+    rcases hc with h | h <;> (subst h; exact absurd h1 (by decide))
+  | wday neg w off =>
+    intro r' h
+    cases neg <;> cases h
+
+/-! ### `day_offset` fails on a space and the `-` of a range (`Jan 5 -10`, `Jan 5 - Feb 10`) -/
+
+/-- `positive_number` needs a digit -/
+theorem run_pn_none_head (q : Bool) (inp : List Char) (h : NoDigit inp) :
+    run g_positive_number q inp = none := by
+  have hz := run_zeros_star true 0 inp (by
+    intro r e; exact h '0' r e (by decide))
+  have h19 := range_none_of_NoDigit true inp h '1' '9' (by decide) (by decide)
+  simp only [List.replicate_zero, List.nil_append] at hz
+  simp [g_positive_number, peg, hz, h19]
+
+theorem run_day_offset_none_pn (X : List Char) (h : run g_positive_number false X = none) :
+    run g_day_offset false (' ' :: '-' :: X) = none := by
+  simp [g_day_offset, g_space, peg, run_pm_minus, h]
+
+/-- the number is read, but no ` day` follows it -/
+theorem run_day_offset_none_num (n : Num) (hn : 0 < n.val) (Z : List Char) (hnd : NoDigit Z)
+    (hz : NoDayWord Z) : run g_day_offset false (' ' :: '-' :: (n.render ++ Z)) = none := by
+  have hpn := run_positive_number_num false n hn Z hnd
+  have hday : run (.seq g_space (.seq (.str ['d', 'a', 'y']) (.opt (.str ['s']))) : G) false Z = none := by
+    cases Z with
+    | nil => simp [g_space, peg]
+    | cons c r =>
+      by_cases hc : c = ' '
+      · subst hc
+        cases r with
+        | nil => simp [g_space, peg]
+        | cons c1 r1 =>
+          by_cases h1 : c1 = 'd'
+          · subst h1
+            cases r1 with
+            | nil => simp [g_space, peg]
+            | cons c2 r2 =>
+              by_cases h2 : c2 = 'a'
+              · subst h2
+                cases r2 with
+                | nil => simp [g_space, peg]
+                | cons c3 r3 =>
+                  have h3 : 'y' ≠ c3 := by intro h; subst h; exact hz r3 rfl
+                  simp [g_space, peg, h3]
+              · simp [g_space, peg, Ne.symm h2]
+          · simp [g_space, peg, Ne.symm h1]
+      · simp [g_space, peg, Ne.symm hc]
+  simp only [g_day_offset, run_rule, run_seq, Bool.or_self, g_space, run_str, stripPrefix_cons_cons,
+    stripPrefix_nil, if_true, Option.map_some, run_pm_minus, hpn, Bool.false_eq_true, if_false] at hday ⊢
+  simp [hday]
+
+/-- a `Small` is a number with at most one leading zero -/
+theorem small_as_num (d : Small) (hd : 1 ≤ d.val ∧ d.val < 100) :
+    ∃ n : Num, n.val = d.val ∧ n.render = d.render := by
+  rcases small_render_cases d hd.2 with ⟨h10, e⟩ | e
+  · exact ⟨⟨d.val, 0⟩, rfl, by rw [e, num_render_eq, natStr_lt10 d.val h10]; rfl⟩
+  · by_cases h10 : d.val < 10
+    · refine ⟨⟨d.val, 1⟩, rfl, ?_⟩
+      have d0 : dc 0 = '0' := by decide
+      rw [e, num_render_eq, natStr_lt10 d.val h10, pad2_lt100 d.val hd.2]
+      have e1 : d.val / 10 = 0 := by omega
+      have e2 : d.val % 10 = d.val := by omega
+      simp [e1, e2, d0]
+    · refine ⟨⟨d.val, 0⟩, rfl, ?_⟩
+      rw [e, num_render_eq]
+      simp [Print.pad2, h10]
+
+/-- `Jan 5 -10`: the space and the `-` are not the start of a day offset, because no ` day` follows
+the number -/
+theorem run_day_offset_none_dash_small (d : Small) (hd : 1 ≤ d.val ∧ d.val < 100) (Z : List Char)
+    (hnd : NoDigit Z) (hz : NoDayWord Z) :
+    run g_day_offset false (' ' :: '-' :: (d.render ++ Z)) = none := by
+  obtain ⟨n, hv, e⟩ := small_as_num d hd
+  rw [← e]
+  exact run_day_offset_none_num n (by omega) Z hnd hz
+
+theorem NoDayWord_cons (c : Char) (r : List Char) (h : c ≠ ' ') : NoDayWord (c :: r) := by
+  intro r' e; cases e; exact h rfl
+
+theorem NoDayWord_space (c : Char) (r : List Char) (h : c ≠ 'd') : NoDayWord (' ' :: c :: r) := by
+  intro r' e; cases e; exact h rfl
+
+/-- `Jan 5 -Feb 10`, `Jan 5 -2020 Feb 10`, `Jan 5 -easter`: the same for a date -/
+theorem run_day_offset_none_dash_sdate (d : SDate) (hd : d.wf = true) (Z : List Char) :
+    run g_day_offset false (' ' :: '-' :: (d.render ++ Z)) = none := by
+  have hmonth : ∀ m X, NoDigit (monthName m ++ X) ∧ NoDayWord (monthName m ++ X) ∧
+      ∀ b, NoDayWord (sp b ++ (monthName m ++ X)) := by
+    intro m X
+    obtain ⟨c, cs, e, hc⟩ := monthStr_head m
+    have h1 : ¬ ('0' ≤ c ∧ c ≤ '9') ∧ c ≠ ' ' ∧ c ≠ 'd' := by
+      rcases hc with h | h | h | h | h | h | h | h <;> subst h <;> decide
+    rw [monthName_eq, e]
+    refine ⟨NoDigit_cons _ _ h1.1, NoDayWord_cons _ _ h1.2.1, ?_⟩
+    intro b
+    cases b with
+    | true => exact NoDayWord_space _ _ h1.2.2
+    | false => exact NoDayWord_cons _ _ h1.2.1
+  have heaster : ∀ X, NoDigit (OH.Spec.Sent.t "easter" ++ X) ∧ NoDayWord (OH.Spec.Sent.t "easter" ++ X) ∧
+      ∀ b, NoDayWord (sp b ++ (OH.Spec.Sent.t "easter" ++ X)) := by
+    intro X
+    refine ⟨NoDigit_cons 'e' _ (by decide), NoDayWord_cons 'e' _ (by decide), ?_⟩
+    intro b
+    cases b with
+    | true => exact NoDayWord_space 'e' _ (by decide)
+    | false => exact NoDayWord_cons 'e' _ (by decide)
+  -- after an optional year prefix comes `W` (a month name or `easter`)
+  have key : ∀ (y : Option (Nat × Bool)) (W : List Char), OH.Spec.Sent.yearPrefixWf y = true →
+      NoDigit W → (∀ b, NoDayWord (sp b ++ W)) →
+      run g_day_offset false (' ' :: '-' :: ((yearPrefix y).1 ++ W)) = none := by
+    intro y W hy hW1 hW2
+    cases y with
+    | none => exact run_day_offset_none_pn _ (run_pn_none_head false _ hW1)
+    | some p =>
+      obtain ⟨y, s⟩ := p
+      have hy' : 1900 ≤ y ∧ y ≤ 9999 := by
+        simpa [OH.Spec.Sent.yearPrefixWf, yearWf_iff] using hy
+      have hnd : NoDigit (sp s ++ W) := by
+        cases s with
+        | true => exact NoDigit_space _
+        | false => exact hW1
+      have := run_day_offset_none_num ⟨y, 0⟩ (by show 0 < y; omega) (sp s ++ W) hnd (hW2 s)
+      simpa [yearPrefix, num_render_eq, dec_eq_natStr] using this
+  cases d with
+  | fixed y m s d =>
+    simp only [OH.Spec.Sent.SDate.wf, Bool.and_eq_true] at hd
+    obtain ⟨h1, _, h3⟩ := hmonth m (sp s ++ d.render ++ Z)
+    have := key y (monthName m ++ (sp s ++ d.render ++ Z)) hd.1.1 h1 h3
+    simpa [SDate.render, List.append_assoc] using this
+  | easter y =>
+    obtain ⟨h1, _, h3⟩ := heaster Z
+    have := key y (OH.Spec.Sent.t "easter" ++ Z) hd h1 h3
+    simpa [SDate.render, List.append_assoc] using this
+
+/-! ### `date_to = { date_from | daynum }` -/
+
+theorem run_dateto_sdate (e : SDate) (he : e.wf = true) (X : List Char) (hf : DayFollowS X) :
+    run g_date_to false (e.render ++ X) = some ⟨[.node .date_to e.render [sdTree e]], e.render, X⟩ := by
+  simp only [g_date_to, run_rule, run_alt, Bool.or_self, run_sdate e he X hf]
+  simp
+
+theorem build_dateto_sdate (e : SDate) (he : e.wf = true) (frm : DateSpec) :
+    buildDateTo (.node .date_to e.render [sdTree e]) frm = .ok e.denote := by
+  simp [buildDateTo, assertRule, build_sdate e he, bind, Except.bind]
+
+/-- `date_from` fails on a bare day number -/
+theorem run_date_from_none_small (d : Small) (hd : d.val < 100) (X : List Char) (hX : NoDigit X) :
+    run g_date_from false (d.render ++ X) = none := by
+  have hy := run_year_none_small false d hd X hX
+  obtain ⟨c, cs, e, hc⟩ := small_head d hd
+  have hml : ¬ MonthLetter c := by
+    intro h
+    rcases h with h | h | h | h | h | h | h | h <;> (subst h; exact absurd hc.2 (by decide))
+  have hm : run g_month false (d.render ++ X) = none := by
+    rw [e]; exact run_month_none_head false c _ hml
+  have he : 'e' ≠ c := by intro h; subst h; exact absurd hc.2 (by decide)
+  have hv : run g_variable_date false (d.render ++ X) = none := by
+    rw [e]; simp [g_variable_date, peg, he]
+  simp [g_date_from, peg, hy, hm, hv]
+
+theorem run_dateto_small (d : Small) (hd : 1 ≤ d.val ∧ d.val ≤ 31) (X : List Char) (hf : DayFollowS X) :
+    run g_date_to false (d.render ++ X) = some ⟨[.node .date_to d.render [dnTree d]], d.render, X⟩ := by
+  simp only [g_date_to, run_rule, run_alt, Bool.or_self, run_date_from_none_small d (by omega) X hf.1,
+    run_dn false d hd X hf]
+  simp
+
+/-- the end of `Jan 5-10`: the roll-over of `build_date_to` -/
+def toDayEnd (yv : Option Nat) (m dv d2v : Nat) : DateSpec :=
+  let m2 := if dv > d2v then m % 12 + 1 else m
+  let y2 := if dv > d2v && m2 == 1 then yv.map (· + 1) else yv
+  .fixed y2 m2 d2v
+
+theorem build_dateto_small (d2 : Small) (hd : 1 ≤ d2.val ∧ d2.val ≤ 31) (yv : Option Nat) (m dv : Nat)
+    (hm : 1 ≤ m ∧ m ≤ 12)
+    (hov : ¬ (dv > d2.val ∧ m = 12 ∧ ∃ v, yv = some v ∧ v ≥ 9999)) :
+    buildDateTo (.node .date_to d2.render [dnTree d2]) (.fixed yv m dv) = .ok (toDayEnd yv m dv d2.val) := by
+  have hb := build_dn d2 hd
+  by_cases hgt : dv > d2.val
+  · by_cases h12 : m = 12
+    · subst h12
+      cases yv with
+      | none =>
+        simp [buildDateTo, assertRule, hb, hgt, monthNext, toDayEnd, bind, Except.bind]
+      | some v =>
+        have hv : ¬ v ≥ 9999 := fun h => hov ⟨hgt, rfl, v, rfl, h⟩
+        simp [buildDateTo, assertRule, hb, hgt, monthNext, toDayEnd, hv, bind, Except.bind]
+    · have hne : ¬ m % 12 = 0 := by omega
+      simp [buildDateTo, assertRule, hb, hgt, monthNext, toDayEnd, hne, bind, Except.bind]
+  · simp [buildDateTo, assertRule, hb, hgt, toDayEnd, bind, Except.bind]
 
 end OH.Proofs.Sent.Wide
